@@ -120,7 +120,7 @@ Qed.
 Lemma cmd_fill_rect_good : forall t p, InvA (mkA t p) -> Good (cmd_fill_rect t p).
 Proof.
   intros t p H. unfold cmd_fill_rect. destruct (nums p) as [|ch [|a [|b [|c [|d [|e r]]]]]]; try gerr.
-  destruct (is_scalar ch); [|exact I]. destruct (rect_area t a b c d) as [[[tl lc] bl] rc]. gok.
+  destruct (is_scalar ch); [|gerr]. destruct (rect_area t a b c d) as [[[tl lc] bl] rc]. gok.
 Qed.
 Lemma cmd_erase_rect_good : forall t p, InvA (mkA t p) -> Good (cmd_erase_rect t p).
 Proof.
@@ -146,10 +146,12 @@ Proof. intros t p H. unfold cmd_reset_margins. gok. Qed.
 (* ---- DCS / OSC / music: the screen is not touched ----------------------------------------------------------------------------- *)
 Lemma execute_dcs_good : forall t p p0, resized p = resized p0 -> InvA (mkA t p0) -> Good (execute_dcs t p).
 Proof.
-  intros t p p0 Hr H. unfold execute_dcs. destruct (starts_with _ _); [exact I|].
-  destruct (lead_nums _ _) as [ns rest].
+  intros t p p0 Hr H. unfold execute_dcs.
   assert (K : forall p', resized p' = resized p -> Good (ok t p') /\ Good (err t p')).
   { intros p' Hp. split; intro R; apply H; cbn in *; congruence. }
+  destruct (starts_with _ _).
+  { unfold load_custom_font. destruct (Font.load_custom_font _ _) as [[slot f]|e|s|]; try exact I; apply K; reflexivity. }
+  destruct (lead_nums _ _) as [ns rest].
   destruct rest as [|c1 rest]; [apply K; reflexivity|].
   destruct c1; try (apply K; reflexivity).
   repeat (match goal with |- Good (match ?x with _ => _ end) => destruct x end; try (apply K; reflexivity)).
